@@ -204,6 +204,18 @@ def _compile_pattern_re(normalized_pattern: str) -> typ.Pattern[str]:
         escaped_pattern = escaped_pattern.replace(char, escaped)
 
     pattern_str = _replace_pattern_parts(escaped_pattern)
+
+    # NOTE: a part may occur more than once, e.g. in "{version} ({pep440_version})".
+    #   Only the first group of each name is used to parse a version.
+    group_counts: typ.Dict[str, int] = {}
+
+    def _unique_group_name(match: typ.Match[str]) -> str:
+        name  = match.group(1)
+        count = group_counts.get(name, 0)
+        group_counts[name] = count + 1
+        return match.group(0) if count == 0 else f"(?P<{name}_{count}>"
+
+    pattern_str = re.sub(r"\(\?P<(\w+)>", _unique_group_name, pattern_str)
     return re.compile(pattern_str)
 
 
